@@ -28,6 +28,25 @@ ASSUMPTIONS = [
 ]
 
 
+def borrower_history(d, cls_name, flavour, own, order):
+    """answers of ONE borrower object to a sequence of requests (genTexts values; 'absent' = option not passed)"""
+    from pysmi.reader.localfile import FileReader
+    from pysmi.borrower.pyfile import PyFileBorrower
+    from pysmi.borrower.anyfile import AnyFileBorrower
+    from pysmi import error
+    b = {'PyFileBorrower': PyFileBorrower, 'AnyFileBorrower': AnyFileBorrower}[cls_name](FileReader(d), genTexts=flavour)
+    if own is not None:
+        b.setOptions(exts=own)
+    out = []
+    for g in order:
+        try:
+            info, data = b.getData('X-MIB', **({} if g == 'absent' else {'genTexts': g}))
+            out.append({'ok': data[len('CONTENT'):]})
+        except error.PySmiError:
+            out.append('notFound')
+    return out
+
+
 def real_borrowers(ctx):
     """AbstractBorrower.getData on scratch directories: every flavour x genTexts value x extension variant."""
     import os
@@ -39,6 +58,7 @@ def real_borrowers(ctx):
     from pysmi import error
     res = ctx.res
     reqs, metas = [], []
+    fresh = {}
     base = scratch_dir()
     try:
         layouts = [[], ['.py'], ['.json'], ['.py', '.json'], ['.txt'], ['']]
@@ -79,6 +99,17 @@ def real_borrowers(ctx):
                             r['genTexts'] = g
                         reqs.append(r)
                         metas.append(((held, cls.__name__, flavour, g), got))
+                        fresh[(li, cls.__name__, flavour, repr(g))] = got
+                    # one borrower object asked several times: an answer does not depend on what it was asked before
+                    for order in (['absent', None, True, False], [False, True, None, 'absent'], [True, False, True], [False, True, False]):
+                        hist = borrower_history(d, cls.__name__, flavour, own, order)
+                        res.count('real-borrower-reused')
+                        for pos, (g2, got2) in enumerate(zip(order, hist)):
+                            if got2 != fresh[(li, cls.__name__, flavour, repr(g2))]:
+                                res.oracle_failures.append({'key': 'borrower-history', 'what': '%s(genTexts=%r) asked %r after %r answers %r, a fresh one %r' % (
+                                    cls.__name__, flavour, g2, order[:pos], got2, fresh[(li, cls.__name__, flavour, repr(g2))]),
+                                    'input': {'real_history': [held, cls.__name__, flavour, own, [repr(x) for x in order]]}})
+                                break
     finally:
         shutil.rmtree(base, ignore_errors=True)
     if ctx.model is not None:
@@ -99,7 +130,7 @@ def search(ctx):
 
 
 def replay(payload):
-    if 'real' in payload.get('input', {}):
+    if 'real' in payload.get('input', {}) or 'real_history' in payload.get('input', {}):
         class C:
             pass
         import common
